@@ -550,7 +550,7 @@ theorem poa_custom_source_score_eq_model (sc : Sc) (xp xs yp ys : Int) (g : Poa.
     ∃ tb, RbV.Gen.SrcPoaAlign.custom sc.w g sc.gap xp xs yp ys query = Rs.Res.ok tb ∧ tb.last = t.last ∧ tb.cols = t.n ∧
       (∃ c, RbV.Gen.SrcPoaAlign.Traceback_get tb (tb.last + 1) tb.cols = Rs.Res.ok c ∧ c.score = t.score) ∧
       ∀ a, RbV.Gen.SrcPoaAlign.Traceback_alignment tb = Rs.Res.ok a → a.score = t.score := by
-  obtain ⟨tb, e, el, ec, _, c, hc, hs⟩ := RbV.Thm.GenSrcPoaScore.custom_score_eq_model sc xp xs yp ys g.labels g.es query t
+  obtain ⟨tb, e, el, ec, _, _, c, hc, hs⟩ := RbV.Thm.GenSrcPoaScore.custom_score_eq_model sc xp xs yp ys g.labels g.es query t
     (RbV.Thm.GenSrcPoaScore.graphOK_of_dag g ⟨hne, hwf, hac⟩) hm hn h
   refine ⟨tb, e, el, ec, ⟨c, hc, hs⟩, ?_⟩
   intro a ha
